@@ -7,3 +7,8 @@ claim("C14", "DESIGN.md 5 C14, A.6",
  "Seeded walks over interleavings (at critical-section granularity, via named yield points inside pkg/sync.Map and pkg/cache) of 2-3 tasks x 1-3 operations of the full API on 1-2 keys, with fake-time advances as events; each recorded history is decided by porcupine against a sequential map-with-expiry model. Sampled exploration of a small space (the quick tier already revisits most 2x2 shapes many times); evidence, not proof.",
  "Trusts porcupine v1.3.0 and the 150-line sequential model; interleavings finer than the yield points (inside a critical section) are not explored; Range is modelled as one Visit sub-operation per callback, the sweep as one SweepKey sub-operation per removed key.",
  "deterministic simulation: cooperative seeded scheduler over yield points + porcupine linearizability check of the recorded history")
+
+claim("C16", "DESIGN.md 5 C16, A.5",
+ "Seeded search over orders of {arrive, cancel, finish, resume-of-a-parked-caller} for up to 5 requests on 1-2 paths with limits 1-3, on the real LimitParallelRequests with a gate-controlled do(); every quiescent point is compared with a per-path reference model (in-flight set, FIFO of waiters), limits are checked as bounds, and idleness (empty queues, immediate admission of a fresh request) at the end. Sampled exploration of a small space; evidence, not proof.",
+ "Trusts the 40-line reference model; the cross-path total limit is checked as a bound / end-state only; a caller cancelled while parked before its select has two legal outcomes (run marked racy, order rule not applied).",
+ "deterministic simulation: seeded event-order search with park points, per-phase comparison against a FIFO limiter model")
